@@ -397,6 +397,45 @@ func c16MessageLevel(c c16Case, priv *ecdsa.PrivateKey, alg cose.Algorithm) erro
 		}
 		*slot = good
 	}
+	// countersignatures (full and abbreviated) by the same key over the Sign1: the same near misses, and the
+	// signature wrapped the way it sits in a header (as a CBOR byte string item), are refused there as well
+	cs := &cose.Countersignature{Headers: hdr(alg)}
+	if err := cs.Sign(rnd, sg, m1, nil); err != nil {
+		return finding("native-sign-fails", "countersignature: %v", err)
+	}
+	cs0, err := cose.Countersign0(rnd, sg, m1, nil)
+	if err != nil {
+		return finding("native-sign-fails", "Countersign0: %v", err)
+	}
+	if err := cs.Verify(ver, m1, nil); err != nil {
+		return finding("valid-signature-rejected", "Countersignature.Verify: %v", err)
+	}
+	if err := cose.VerifyCountersign0(ver, m1, nil, cs0); err != nil {
+		return finding("valid-signature-rejected", "VerifyCountersign0: %v", err)
+	}
+	for ci, good := range [][]byte{append([]byte{}, cs.Signature...), cs0} {
+		n := len(good) / 2
+		r, s := new(big.Int).SetBytes(good[:n]), new(big.Int).SetBytes(good[n:])
+		der, _ := asn1.Marshal(struct{ R, S *big.Int }{r, s})
+		forms := map[string][]byte{
+			"der": der, "zero-appended": append(append([]byte{}, good...), 0), "truncated": good[:len(good)-1],
+			"zero-extended-halves":      append(append([]byte{0}, good[:n]...), append([]byte{0}, good[n:]...)...),
+			"wrapped-as-cbor-bstr":      rc.Encode(rc.Bytes(good), nil),
+			"wrapped-as-cbor-bstr-wide": append([]byte{0x59, byte(len(good) >> 8), byte(len(good))}, good...),
+			"wrapped-twice":             rc.Encode(rc.Bytes(rc.Encode(rc.Bytes(good), nil)), nil),
+		}
+		for name, f := range forms {
+			var verr error
+			if ci == 0 {
+				verr = (&cose.Countersignature{Headers: cs.Headers, Signature: f}).Verify(ver, m1, nil)
+			} else {
+				verr = cose.VerifyCountersign0(ver, m1, nil, f)
+			}
+			if verr == nil {
+				return finding("non-fixed-width-accepted/"+formClass(name), "%s: form %q (%d bytes) of a valid %d-byte signature is accepted", []string{"Countersignature.Verify", "VerifyCountersign0"}[ci], name, len(f), len(good))
+			}
+		}
+	}
 	stats.Class("native/message-level-forms")
 	return nil
 }
